@@ -7,7 +7,7 @@ import ast
 from ..absint import NONE, App, ClassV, Const, DictV, ExcV, ListV, ObjV, Sym
 from ..flow import FlowPolicy, exits, run_flow
 from ..repo import AnalysisError, body_walk, call_name, norm, short
-from .c14 import RUN_CORO, registries_emptied, registry_writes, task_registries
+from .c14 import RUN_CORO, callback_mutation_table, registries_emptied, registry_writes, task_registries
 
 LEVEL_TEXT = (
     "decides necessary structural conditions of C13, not mutual exclusion over interleavings: the three places that "
@@ -157,6 +157,40 @@ def run(ctx):
 
     ctx.rule("R13.7", "the owner's names are released on every exit of run_coro, including cancellation while a done callback is suspended", floor=2)
     registries_emptied(ctx, program, "R13.7", only={"unique_task2name"})
+
+    ctx.rule("R13.9", "names claimed for a task by its own done callbacks are released as well (the release follows the last user code that runs for the task)", floor=4)
+    callback_mutation_table(ctx, program, "R13.9")
+
+    ctx.rule("R13.8", "@task_unique: the kill_me pre-check and the claim name the task in the same evaluator (the one that runs the function), so both use the same '<context>.' prefix", floor=2)
+    for uid, heap, args, want in (
+        ("decorators/task.py::TaskUniqueDecorator.handle_call",
+         {"self.kill_me": Const(True), "self.args": ListV((Const("n"),), "list"), "self.dm": ObjV("dm", "FunctionDecoratorManager"), "dm.ast_ctx": ObjV("defining_evaluator", "AstEval"),
+          "data.call_ast_ctx": ObjV("run_evaluator", "AstEval"), "self.name": Const("task_unique"), "dm.name": Const("f")},
+         {"self": ObjV("self", "TaskUniqueDecorator"), "data": ObjV("data", "DispatchData")}, "run_evaluator"),
+    ):
+        seen = []
+
+        def used(i, n, a, k, c, o, seen=seen):
+            seen.append(("pre-check", getattr(a[0], "oid", repr(a[0]))))
+            return [(c, Const(False))]
+
+        def factory(i, n, a, k, c, o, seen=seen):
+            seen.append(("claim", getattr(a[0], "oid", repr(a[0]))))
+            return [(c, Sym(("claimer",)))]
+
+        pol = FlowPolicy(program, may_raise_all=False, cancel=False, summaries={"Function.unique_name_used": used, "Function.task_unique_factory": factory})
+        run_flow(program, uid, pol, args=args, heap=heap)
+        ok = sorted(set(seen)) == [("claim", want), ("pre-check", want)]
+        ctx.check(ok, "R13.8", uid, "pre-check and claim use the evaluator that runs the function", msg=f"{uid}: evaluator used for {sorted(set(seen))}; both must be the run's own evaluator "
+                  f"('{want}'): the defining evaluator's current context differs while it runs code of another file, the pre-check then looks at another key than the claim and the live owner is cancelled",
+                  key="unique pre-check/claim evaluator", node=program.func(uid), rel=uid.split("::")[0])
+    # legacy: both calls in call_action take the same evaluator variable
+    ca = program.func("trigger.py::TrigInfo.call_action")
+    a_used = [norm(n.args[0]) for n in body_walk(ca) if isinstance(n, ast.Call) and call_name(n) == "Function.unique_name_used" and n.args]
+    a_fact = [norm(n.args[0]) for n in body_walk(ca) if isinstance(n, ast.Call) and call_name(n) == "Function.task_unique_factory" and n.args]
+    a_eval = [norm(n.args[0]) for n in ast.walk(ca) if isinstance(n, ast.Call) and (call_name(n) or "").endswith("do_func_call") and n.args]
+    ctx.check(bool(a_used) and bool(a_fact) and set(a_used) == set(a_fact) and (not a_eval or set(a_used) <= set(a_eval) | set(a_used)), "R13.8", "trigger.py::TrigInfo.call_action",
+              "legacy: pre-check and claim use the same evaluator", msg=f"legacy call_action: pre-check on {a_used}, claim on {a_fact}", key="legacy unique pre-check/claim evaluator", node=ca, rel="trigger.py")
 
     ctx.rule("R13.5", "@task_unique claims the name before the function body runs (both subsystems)", floor=2)
     # legacy: do_func_call awaits task_unique_func before ast_ctx.call_func
